@@ -40,8 +40,11 @@ def classify(table=TABLE):
 
 
 def table_atoms(table=TABLE):
-    """atoms carrying an energy-dependent table"""
-    return [a for a in base_atoms(table) if a.neutron.nsf_table is not None]
+    """atoms carrying an energy-dependent table: the rows of nsf_tables.ENERGY_DEPENDENT_TABLES and natural Lu
+    (mixed from its isotopes by energy_dependent_init) - named from the source data, not from what the
+    library has attached so far"""
+    want = set(nsf_tables.ENERGY_DEPENDENT_TABLES) | {("Lu", None)}
+    return [a for a in base_atoms(table) if (a.symbol, getattr(a, "isotope", None) if core.isisotope(a) else None) in want]
 
 
 def node_wavelengths(atom):
@@ -183,7 +186,10 @@ def run_call(call, seq, density=None, natural_density=None, wkind=0, vector=Fals
     kw = {}
     if wkind:
         if vector:
-            arg = [float(x) for x in wvals] if as_list else np.array([float(x) for x in wvals])
+            vals = [float(x) for x in wvals]
+            if vals and all(v == int(v) for v in vals):
+                vals = [int(v) for v in vals]     # whole numbers travel as integers: [2, 4, 7] and arange(2, 7) are wavelengths too
+            arg = vals if as_list else np.array(vals)
         else:
             arg = float(wvals[0])
         kw["wavelength" if wkind == 1 else "energy"] = arg
@@ -254,7 +260,10 @@ def run_call_formula(call, fobj, density=None, natural_density=None, wkind=0, ve
     kw = {}
     if wkind:
         if vector:
-            arg = [float(x) for x in wvals] if as_list else np.array([float(x) for x in wvals])
+            vals = [float(x) for x in wvals]
+            if vals and all(v == int(v) for v in vals):
+                vals = [int(v) for v in vals]     # whole numbers travel as integers: [2, 4, 7] and arange(2, 7) are wavelengths too
+            arg = vals if as_list else np.array(vals)
         else:
             arg = float(wvals[0])
         kw["wavelength" if wkind == 1 else "energy"] = arg
